@@ -134,6 +134,8 @@ partial def evalNof (c : Nof.Ctx) (j : Json) : Except String Nof.Form := do
         | "pow2" => pure fun n => if n ≥ 0 then (2 : Rat) ^ n.toNat else 1 / (2 : Rat) ^ (-n).toNat
         | "inv" => pure fun n => 2 / (2 * (n : Rat) + 1)                  -- 1 / (N + 1/2)
         | "abs" => pure fun n => ((n - 1).natAbs : Rat)                   -- |N - 1|
+        | "abs0" => pure fun n => (n.natAbs : Rat)                        -- |N|
+        | "sqrtsq" => pure fun n => (n.natAbs : Rat)                      -- sqrt(N^2)
         | "sq" => pure fun n => ((n : Rat) + 1) ^ 2                       -- (N + 1)^2
         | k => throw s!"unknown function {k}"
       pure [{ powers := List.replicate c.n 0, coeff := fun N => GRat.ofRat (f (Nof.Occ.get N m)) }]
